@@ -825,6 +825,7 @@ func (r *nodeRig) exec(s nStep, openIndex int) nObs {
 	r.sent, r.trs, r.events, r.valcalls, r.protects, r.unprots = nil, nil, nil, nil, nil, nil
 	r.delayFailingCancel = s.Kind == "close"
 	r.mu.Unlock()
+	atomic.StoreInt32(&r.slowClose, 0)
 	ctx := context.Background()
 	var obs nObs
 	done := make(chan struct{})
@@ -879,15 +880,14 @@ func (r *nodeRig) exec(s nStep, openIndex int) nObs {
 			vr, _ := s.Vr.real()
 			err = r.mgr.UpdateValidationStatus(ctx, k, vr)
 		case "close":
+			// stays set until the next step starts: the ending's cleanup handler runs after the call has returned
 			atomic.StoreInt32(&r.slowClose, 1)
 			err = r.mgr.CloseDataTransferChannel(ctx, k)
-			atomic.StoreInt32(&r.slowClose, 0)
 		case "closeerr":
 			atomic.StoreInt32(&r.slowClose, 1)
 			err = r.mgr.(interface {
 				CloseDataTransferChannelWithError(context.Context, datatransfer.ChannelID, error) error
 			}).CloseDataTransferChannelWithError(ctx, k, errors.New("close reason"))
-			atomic.StoreInt32(&r.slowClose, 0)
 		case "pause":
 			err = r.mgr.PauseDataTransferChannel(ctx, k)
 		case "resume":
